@@ -53,6 +53,16 @@ fn same_set(z: u8, got: &TileBBox, want: &IBox, sig: &str, ctx: &str) -> Result<
 	Ok(())
 }
 
+/// number of candidate cells `iter_bbox_grid(size)` walks through (cost guard only, not an oracle)
+fn grid_candidates(b: &TileBBox, size: u32) -> u128 {
+	let (x0, x1, y0, y1) = (b.x_min / size, b.x_max / size, b.y_min / size, b.y_max / size);
+	if x0 > x1 || y0 > y1 {
+		0
+	} else {
+		((x1 - x0) as u128 + 1) * ((y1 - y0) as u128 + 1)
+	}
+}
+
 fn unary_laws(z: u8, name: &str, b: &TileBBox, m: &IBox, p: &Probes, t: &mut Tally) -> Result<(), Fail> {
 	let max = level_max(z);
 	let set = small(z, m);
@@ -194,7 +204,10 @@ fn unary_laws(z: u8, name: &str, b: &TileBBox, m: &IBox, p: &Probes, t: &mut Tal
 			ensure_prop!(n == 0, "box:grid-size0-yields", "{name}: {b:?}.iter_bbox_grid(0) yields {n} boxes");
 			continue;
 		}
-		if bs::grid_cells(m, size) > p.cell_limit {
+		// iter_bbox_grid materialises one candidate per aligned cell of the scaled-down fields, also
+		// for an empty box whose scaled-down ranges are not empty (e.g. x 5..=3, y 0..=2^31-1 with
+		// size 256); that is slow but not wrong, so the run is bounded by that number of candidates
+		if bs::grid_cells(m, size).max(grid_candidates(b, size)) > p.cell_limit {
 			t.grids_skipped += 1;
 			continue;
 		}
@@ -520,7 +533,10 @@ fn roundtrip(z: u8, r: &Rect) -> Result<GeoBBox, Fail> {
 		Err(p) => return Err(Fail::from_panic(&format!("from_geo({z}, {geo:?})"), &p)),
 	};
 	let d = denote(&back, z, &format!("from_geo({z}, {geo:?})"))?;
-	ensure_prop!(d == Some(*r), "geo:roundtrip-differs", "{b:?}.as_geo_bbox() = {geo:?}; from_geo({z}, ..) = {back:?} instead of the same box");
+	// one class per cause: from zoom 30 on the latitude of a tile edge near the Mercator limit is
+	// not representable in f64 within the 1e-6 tile guard
+	let sig = if z >= 30 { "geo:roundtrip-differs-at-zoom>=30" } else { "geo:roundtrip-differs" };
+	ensure_prop!(d == Some(*r), sig, "{b:?}.as_geo_bbox() = {geo:?}; from_geo({z}, ..) = {back:?} instead of the same box");
 	Ok(geo)
 }
 
@@ -1197,8 +1213,8 @@ fn lat_strategy() -> impl Strategy<Value = f64> {
 		1 => prop_oneof![Just(-90.0f64), Just(90.0f64), Just(0.0f64), Just(MERCATOR_LAT), Just(-MERCATOR_LAT)],
 		1 => 85.0f64..=90.0,
 		1 => -90.0f64..=-85.0,
-		1 => (85.05f64..=85.0512),
-		1 => (-85.0512f64..=-85.05),
+		1 => 85.05f64..=85.0512,
+		1 => -85.0512f64..=-85.05,
 		4 => (0u8..=31, 0.0f64..=1.0, tiny_strategy()).prop_map(|(z, f, d)| {
 			let k = ((1u64 << z) as f64 * f).floor();
 			(georef::lat(k, z) + d).clamp(-90.0, 90.0)
@@ -1270,7 +1286,7 @@ fn main() {
 	check.phase("sampled-boxes", check.cases(150_000, 4_000_000), box_case_strategy, box_oracle);
 	check.phase("pyramids", check.cases(60_000, 1_500_000), pyr_case_strategy, pyr_oracle);
 	check.enumerate("geo-special", geo_special_cases(), false, geo_oracle);
-	check.phase("geo-aligned", check.cases(40_000, 1_000_000), geo_aligned_strategy, geo_oracle);
 	check.phase("geo", check.cases(60_000, 1_500_000), geo_raw_strategy, geo_oracle);
+	check.phase("geo-aligned", check.cases(40_000, 1_000_000), geo_aligned_strategy, geo_oracle);
 	check.finish();
 }
